@@ -29,7 +29,7 @@ RULE = ("case = (documented name, spelling in {as documented, all '_', all '-', 
         "with all remote names; plus 200 undocumented names (typos of real ones); plus a default-home run. "
         "non-trivial: every load of a documented name; distinct by (name, spelling, unpack).")
 REQUIRED_MONITORS = ["c18:bundled", "c18:remote", "c18:pinned_checksum_enforced", "c18:all_in_one_home",
-                     "c18:undocumented", "c18:default_home", "c18:substitution_wrapper", "c18:switch_home", "c18:tilde_home"]
+                     "c18:undocumented", "c18:default_home", "c18:substitution_wrapper", "c18:switch_home", "c18:tilde_home", "c18:description_accessors"]
 ASSUMPTIONS = ["the served payloads are synthetic; what is observed is the loader's behaviour per name, not the remote files"]
 NPARTS = 12
 
@@ -264,9 +264,26 @@ def run_undocumented(ctx):
         ty = typos(ctx.rng("typos", 0), names)
         steps = [{"op": "net", "default": "good"}] + [{"op": "by_name", "name": t, "substitute": True} for t in ty]
         steps.append({"op": "listing"})
+        steps.append({"op": "descriptions"})
         rc, out, err = _ds.run_child({"home": home, "steps": steps}, scratch)
         if out is None:
             raise RuntimeError("dataset child failed rc=%s: %s" % (rc, err))
+        # the description tables are also reachable through the package: every documented name must appear in the text
+        # returned by the accessor of its table
+        desc = out["results"][-1].get("descriptions", {})
+        by_table = {}
+        for table, n in _ds.documented_names():
+            by_table.setdefault(table, []).append(n)
+        for table, fn in (("sandvine", "sandvine_dataset_description"), ("mix_it", "mix_it_dataset_description"),
+                          ("ams_ix", "ams_ix_dataset_description"), ("ix_br", "ix_br_dataset_description")):
+            ctx.judged()
+            ctx.monitor("c18:description_accessors")
+            txt = desc.get(fn)
+            if not isinstance(txt, str) or any(n not in txt for n in by_table.get(table, [])):
+                ctx.violation("description_accessor", {"kind": "undocumented", "accessor": fn, "seed": ctx.seed},
+                              {"returned": txt if not isinstance(txt, str) else txt[:200]})
+            else:
+                ctx.nontriv("desc", fn)
         for t, r in zip(ty, out["results"][1:]):
             cid = {"kind": "undocumented", "name": t, "seed": ctx.seed}
             ctx.judged()
